@@ -31,7 +31,8 @@ type gsession struct {
 	sq      pfcpx.QER
 	nextPDR uint16
 	live    bool
-	noDl    bool // the downlink PDRs and FARs have been removed: the session is only deleted from here on
+	teids   map[uint16]uint32 // F-TEIDs the UP function chose, by PDR ID (from the Created PDR elements)
+	noDl    bool              // the downlink PDRs and FARs have been removed: the session is only deleted from here on
 }
 
 // Gen is the online generator: it needs the agent's answers (UP SEIDs) to continue.
@@ -252,6 +253,12 @@ func (g *Gen) newBearer(s *gsession, usedFar, usedQer map[uint32]bool, inMod boo
 	}
 
 	b.dl = pfcpx.PDR{ID: b.dlPDR, Prec: g.prec(), Src: "core", FTEID: "none", UE: ue, UEIP: s.ueip, SDF: fl, AppID: app, FAR: b.dlFAR, QERs: qers}
+	if !inMod && g.R.Intn(10) == 0 {
+		// downlink traffic that arrives over a core-side tunnel (N9): the UP function chooses that F-TEID too, and may have
+		// to choose the UE address for the same PDR
+		b.dl.FTEID, b.dl.OHR = "choose", true
+	}
+
 	b.fu = pfcpx.FAR{ID: b.ulFAR, Action: 2, HasFP: true, Dst: "core"}
 
 	switch g.R.Intn(3) {
@@ -355,6 +362,14 @@ func (g *Gen) Step() bool {
 			for _, c := range ds[0].Created {
 				if c.HasUE {
 					s.ueip = c.UEIP
+				}
+
+				if c.HasTEID {
+					if s.teids == nil {
+						s.teids = map[uint16]uint32{}
+					}
+
+					s.teids[c.PDR] = c.TEID
 				}
 			}
 
@@ -496,6 +511,14 @@ func (g *Gen) EstablishOn(peer string) *GSession {
 		for _, c := range ds[0].Created {
 			if c.HasUE {
 				s.ueip = c.UEIP
+			}
+
+			if c.HasTEID {
+				if s.teids == nil {
+					s.teids = map[uint16]uint32{}
+				}
+
+				s.teids[c.PDR] = c.TEID
 			}
 		}
 
@@ -647,6 +670,16 @@ func (g *Gen) modifyKind(s *gsession, forced int) {
 
 		if np.UE == "alloc" && s.ueip == 0 {
 			break
+		}
+
+		if np.FTEID == "choose" {
+			// a control plane repeats the F-TEID it was given in the Created PDR as an ordinary value
+			t, ok := s.teids[np.ID]
+			if !ok {
+				break
+			}
+
+			np.FTEID, np.TunIP, np.TEID = "explicit", w.AccessIP, t
 		}
 
 		if g.R.Intn(3) == 0 && np.AppID == "" {
